@@ -26,10 +26,19 @@ def build_explorer_harness(name, variant="plain", extra_srcs=(), relay=False, xc
                                xcmc=xcmc, extra_defs=extra_defs)
 
 
+def plain_env():
+    """glibc fills every malloc'ed block with a non-zero pattern (and every freed one with its complement): a field
+    the code forgot to initialise - or reads after free - misbehaves deterministically instead of happening to be 0"""
+    env = dict(os.environ)
+    env.setdefault("MALLOC_PERTURB_", "165")
+    return env
+
+
 def asan_env():
     env = dict(os.environ)
     env["ASAN_OPTIONS"] = "detect_leaks=0:abort_on_error=1:detect_stack_use_after_return=1:" \
-                          "allocator_may_return_null=1:handle_abort=0:symbolize=1"
+                          "allocator_may_return_null=1:handle_abort=0:symbolize=1:max_malloc_fill_size=1048576:" \
+                          "malloc_fill_byte=165"
     env["UBSAN_OPTIONS"] = "halt_on_error=1:abort_on_error=1:print_stacktrace=1"
     return env
 
@@ -42,7 +51,7 @@ def explore(exe, params, bound, deadline_s, jobs=16, tag=None, env=None):
     cmd = [exe, "--explore", "--params", params, "--bound", str(bound), "--jobs", str(jobs),
            "--deadline", str(max(1, int(deadline_s))), "--out", out]
     t0 = time.time()
-    r = subprocess.run(cmd, capture_output=True, env=env)
+    r = subprocess.run(cmd, capture_output=True, env=env if env is not None else plain_env())
     res = None
     if os.path.exists(out):
         try:
